@@ -301,7 +301,7 @@ ConvF(r) ==
   CASE r.t \in {"nil", "nilarr"} -> RNil
     [] r.t = "st" -> RBulk(r.v)
     [] r.t = "arr" -> LET w == CutAtNil([i \in 1..Len(r.v) |-> ConvF(r.v[i])]) IN IF w = <<>> THEN RNil ELSE RArr(w)
-    [] r.t \in {"bag", "pairs", "pick"} -> ROneOf({r, RNil})       \* an empty collection reply becomes nil
+    [] r.t \in {"bag", "pairs", "pick", "pendext"} -> ROneOf({r, RNil})       \* an empty collection reply becomes nil
     [] r.t = "oneof" -> ROneOf({ConvF(x) : x \in r.v})
     [] OTHER -> r
 RECURSIVE LuaConstF(_)
